@@ -808,6 +808,9 @@ pub fn run(sc: &Scenario, bins: &Bins, dir: &Path, known_crlf: bool) -> Outcome 
 
     // which file does an fd refer to at the time of a call? replay opens in log order
     let mut fd_file: std::collections::HashMap<i32, String> = Default::default();
+    // the same name may be given (and opened) several times: remember which opening an fd is
+    let mut fd_occurrence: std::collections::HashMap<i32, usize> = Default::default();
+    let mut opened_so_far: std::collections::HashMap<String, usize> = Default::default();
     let mut offsets: std::collections::HashMap<(i32, String), usize> = Default::default();
     let mut pattern_fault = false;
     let mut read_fault_file: Option<usize> = None;
@@ -824,6 +827,9 @@ pub fn run(sc: &Scenario, bins: &Bins, dir: &Path, known_crlf: bool) -> Outcome 
         if l.starts_with("o ") {
             if let Some((fd, p)) = opens.get(oi) {
                 fd_file.insert(*fd, p.clone());
+                let n = opened_so_far.entry(p.clone()).or_insert(0);
+                fd_occurrence.insert(*fd, *n);
+                *n += 1;
             }
             oi += 1;
             continue;
@@ -863,7 +869,7 @@ pub fn run(sc: &Scenario, bins: &Bins, dir: &Path, known_crlf: bool) -> Outcome 
             } else {
                 sc.files.iter().find(|(n, _)| *n == name).map(|(_, l)| file_bytes(l)).unwrap_or_default()
             };
-            let off = offsets.entry((call.fd, name.clone())).or_insert(0);
+            let off = offsets.entry((call.fd, format!("{name}#{}", fd_occurrence.get(&call.fd).copied().unwrap_or(0)))).or_insert(0);
             if call.res > 0 {
                 *off += call.res as usize;
             }
@@ -893,8 +899,12 @@ pub fn run(sc: &Scenario, bins: &Bins, dir: &Path, known_crlf: bool) -> Outcome 
                         pattern_fault = true;
                     } else if name == "stdin.txt" {
                         read_fault_file = Some(0);
-                    } else if let Some(k) = sc.files.iter().position(|(n, _)| *n == name) {
-                        read_fault_file = Some(k);
+                    } else {
+                        let occ = fd_occurrence.get(&call.fd).copied().unwrap_or(0);
+                        let k = sc.files.iter().enumerate().filter(|(_, (n, _))| *n == name).map(|(i, _)| i).nth(occ);
+                        if let Some(k) = k.or_else(|| sc.files.iter().position(|(n, _)| *n == name)) {
+                            read_fault_file = Some(k);
+                        }
                     }
                 }
                 _ => {}
@@ -1133,6 +1143,7 @@ pub fn generate(seed: u64, cfg: &GenCfg) -> Scenario {
         files.push((name, gen_lines(&mut rng)));
     }
     let stdin_lines = if nfiles == 0 { gen_lines(&mut rng) } else { vec![] };
+    let dup_file = files.len() >= 1 && rng.chance(1, 12);
     let color = *rng.pick(&[Color::Default, Color::Never, Color::Always, Color::Always, Color::Always, Color::Auto]);
     let term = rng.pick(&[None, Some("xterm-256color"), Some("dumb"), Some("xterm")]).map(|s| s.to_string());
     let profile = if rng.chance(1, 2) { Profile::Dev } else { Profile::Release };
@@ -1155,6 +1166,13 @@ pub fn generate(seed: u64, cfg: &GenCfg) -> Scenario {
         p_layout: if rng.chance(1, 4) { rng.below(4) as u8 } else { 0 },
         flag_style: if rng.chance(1, 3) { rng.below(4) as u8 } else { 0 },
     };
+    if dup_file && mode != Mode::Hard {
+        // the same file given twice (not with hard faults: the relaxed oracle identifies the
+        // failing input by name)
+        let f = sc.files[rng.below(sc.files.len())].clone();
+        let at = rng.below(sc.files.len() + 1);
+        sc.files.insert(at, f);
+    }
     sc.sched = gen_sched(&mut rng, mode);
     sc
 }
@@ -1219,6 +1237,14 @@ pub fn minimise(sc: &Scenario, class: &str, bins: &Bins, dir: &Path, known_crlf:
     let fails = |c: &Scenario| -> bool {
         if c.patterns.is_empty() || Instant::now() > deadline {
             return false;
+        }
+        // entries with the same name are the same file on disk: never accept diverging copies
+        for i in 0..c.files.len() {
+            for j in 0..i {
+                if c.files[j].0 == c.files[i].0 && c.files[j].1 != c.files[i].1 {
+                    return false;
+                }
+            }
         }
         run(c, bins, dir, known_crlf).violation.map(|v| v.class == class).unwrap_or(false)
     };
